@@ -23,6 +23,15 @@ var c07Alpha = []*BatchSpec{
 	kv("k2", "$"),
 	{Ops: kv("k3", "<del>").Ops, Kids: kid("A", kv("x", "$"))},
 	kv("zz", "<del>", "k0", "$"), // deletion of a key that was never set and sorts after every other key
+	{DelKids: []string{"A"}},
+	{Kids: kid("A", kv("y", "$"))},
+}
+
+// c07Rounds: what is executed between two persistence rounds (usually one batch; the last entry deletes child
+// collection A and recreates it with another key within the same round).
+var c07Rounds = [][]int{{0}, {1}, {2}, {3}, {4}, {5}, {6}, {7, 8}}
+
+func c07Unused() {
 }
 
 func c07Configs(tier string) []Config {
@@ -143,7 +152,7 @@ func dataFiles(dir string) []string {
 func c07One(cfg Config, seq []int, res *c07Res) *Violation {
 	w := NewWorld(cfg, c07Alpha)
 	defer w.Teardown()
-	w.probes = []string{"k0", "k1", "k2", "k3", "k4", "big", "x", "zz"}
+	w.probes = []string{"k0", "k1", "k2", "k3", "k4", "big", "x", "y", "zz"}
 	if w.infra != "" {
 		res.Infra = w.infra
 		return nil
@@ -153,7 +162,11 @@ func c07One(cfg Config, seq []int, res *c07Res) *Violation {
 		where := fmt.Sprintf("options %s, rounds %v, after round %d", cfg, seq, ri+1)
 		segBefore, _ := moss.VerifNumSegments(w.store)
 		full0, part0 := storeCounters(w)
-		for _, st := range []string{fmt.Sprintf("B%d", bi), "M"} {
+		var steps []string
+		for _, b := range c07Rounds[bi] {
+			steps = append(steps, fmt.Sprintf("B%d", b))
+		}
+		for _, st := range append(steps, "M") {
 			if !w.Step(st) {
 				res.Infra = where + ": step " + st + " not enabled"
 				return nil
@@ -261,7 +274,7 @@ func checkC07(prop, tier string) int {
 			seqs = append(seqs, append([]int{}, cur...))
 			return
 		}
-		for i := range c07Alpha {
+		for i := range c07Rounds {
 			gen(append(cur, i))
 		}
 	}
@@ -334,7 +347,7 @@ func checkC07(prop, tier string) int {
 			"traces_validated_against_impl": tot.Seqs,
 			"evaluations":                   tot.Seqs,
 			"distinct_nontrivial":           len(tot.Splices),
-			"rule":                          "every sequence of R persistence rounds over a 6-batch alphabet (1 key, 3 keys, a 5000-byte value, overwrite, delete+insert, child-collection write + delete) x option points (concern, CompactionLevelMaxSegments, CompactionLevelMultiplier, CompactionPercentage, CompactionBufferPages, NoSync), on the real collection + store under the controlled scheduler; after every round: store snapshot == collection snapshot == reference; after a full compaction: <=1 segment per collection, no deletion markers, no duplicate keys; at the end: one data file. distinct_nontrivial = distinct (segments before -> after, compaction kind) transitions observed, i.e. the splice points exercised",
+			"rule":                          "every sequence of R persistence rounds over an 8-round alphabet (1 key, 3 keys, a 5000-byte value, overwrite, delete+insert, child-collection write + delete, deletion of a never-set last key, child collection deleted and recreated within one round) x option points (concern, CompactionLevelMaxSegments, CompactionLevelMultiplier, CompactionPercentage, CompactionBufferPages, NoSync), on the real collection + store under the controlled scheduler; after every round: store snapshot == collection snapshot == reference; after a full compaction: <=1 segment per collection, no deletion markers, no duplicate keys; at the end: one data file. distinct_nontrivial = distinct (segments before -> after, compaction kind) transitions observed, i.e. the splice points exercised",
 			"samples":                       samples,
 			"exhaustive":                    infra == 0 && skipped == 0,
 			"cap_hit":                       fmt.Sprintf("%d of %d jobs skipped by the deadline", skipped, len(jobs)),
